@@ -1,5 +1,6 @@
 import PgBifrost.Proofs.Parser.Total
 import PgBifrost.Proofs.Parser.RoundTrip
+import PgBifrost.Proofs.ParserSrc
 /-!
 # C09 — decoder fidelity for everything test_decoding can print (property theorems)
 
@@ -114,5 +115,18 @@ theorem parse_empty_tuple_witness (r : Rel) :
     parseIdx (render (.insert r (some []))) = .err .invalidChar ∧
     parseIdx (render (.delete r (some []))) = .err .invalidChar :=
   ⟨parse_empty_tuple _ _ (Scan.rel r) opInert_INSERT, parse_empty_tuple _ _ (Scan.rel r) opInert_DELETE⟩
+
+/-! ## the state machine IS the source's (translator `tools/factgen/parsertr.go`, regenerated every run) -/
+
+/-- The `switch state.Current` inside the loop of `parselogical.parse` and the code after the loop, translated
+statement by statement from the source on this run (every Go slice and index expression through `slice?` /
+`index?`, so an out-of-range one is the outcome `panic`), are the model's `stepC` and `finish` - the functions
+`parse_total` and the round-trip theorem are about. The loop header (`for i := 0; i <= len(message); i++`), the
+`TokenStart` jump and the two look-ahead bytes are checked by the translator to be as the model's `loop`/`step`
+have them. -/
+theorem parser_switch_as_in_source :
+    (∀ msg p i chr nxt st res, PgBifrost.Gen.ParserSrc.stepC msg p i chr nxt st res = stepC msg p i chr nxt st res) ∧
+    PgBifrost.Gen.ParserSrc.finish = finish :=
+  ⟨PgBifrost.Proofs.ParserSrc.stepC_eq, PgBifrost.Proofs.ParserSrc.finish_eq⟩
 
 end PgBifrost.Props.C09
